@@ -19,7 +19,65 @@ impl<V> HashMap<String, V> {
 }
 #[verifier::external_body] #[verifier::reject_recursive_types(T)]
 pub struct HashSet<T> { _t: T }
+// std::collections::hash_map::Entry<String, V>
+#[verifier::external_body] #[verifier::reject_recursive_types(V)]
+pub struct Entry<'a, V> { _v: &'a V }
+impl<'a, V> Entry<'a, V> {
+    pub uninterp spec fn key(&self) -> Seq<char>;
+    pub uninterp spec fn before(&self) -> Map<Seq<char>, V>;
+    pub uninterp spec fn after(&self) -> Map<Seq<char>, V>;
+}
+impl<'a> Entry<'a, HashSet<String>> {
+    // or_default: the existing value, or a freshly inserted empty set
+    #[verifier::external_body]
+    pub fn or_default(self) -> (r: &'a mut HashSet<String>)
+        ensures
+            self.before().contains_key(self.key()) ==> *r == self.before()[self.key()],
+            !self.before().contains_key(self.key()) ==> r.set() == Set::<Seq<char>>::empty(),
+            self.after() == self.before().insert(self.key(), *final(r)),
+    { unimplemented!() }
+}
+impl HashSet<UriHttps> {
+    pub uninterp spec fn uris(&self) -> Set<UriHttps>;
+    #[verifier::external_body]
+    pub fn insert(&mut self, k: UriHttps) -> (r: bool)
+        ensures final(self).uris() == old(self).uris().insert(k),
+    { unimplemented!() }
+    #[verifier::external_body]
+    pub fn contains(&self, k: &UriHttps) -> (r: bool) ensures r == self.uris().contains(*k) { unimplemented!() }
+}
+#[verifier::external_body] pub struct UriHttps { _opaque: () }
+impl Clone for UriHttps {
+    #[verifier::external_body]
+    fn clone(&self) -> (r: Self) ensures r == *self { unimplemented!() }
+}
+// std::borrow::Cow<'_, str>
+pub enum CowStr<'a> { Borrowed(&'a str), Owned(String) }
+impl<'a> CowStr<'a> {
+    pub open spec fn view(&self) -> Seq<char> {
+        match *self { CowStr::Borrowed(s) => s@, CowStr::Owned(s) => s@ }
+    }
+    #[verifier::external_body]
+    pub fn into_owned(self) -> (r: String) ensures r@ == self.view() { unimplemented!() }
+    #[verifier::external_body]
+    pub fn as_ref(&self) -> (r: &str) ensures r@ == self.view() { unimplemented!() }
+}
 impl<V> HashMap<String, V> {
+    // The returned reference is the entry for k: what is written through it is the map's new value at k.
+    #[verifier::external_body]
+    pub fn get_mut(&mut self, k: &str) -> (r: Option<&mut V>)
+        ensures
+            match r {
+                Some(v) => old(self).map().contains_key(k@) && *v == old(self).map()[k@]
+                    && final(self).map() == old(self).map().insert(k@, *final(v)),
+                None => !old(self).map().contains_key(k@) && final(self).map() == old(self).map(),
+            },
+    { unimplemented!() }
+    // entry(k): the map as it will be once the entry has been used is `after()` of the entry.
+    #[verifier::external_body]
+    pub fn entry(&mut self, key: String) -> (e: Entry<'_, V>)
+        ensures e.key() == key@, e.before() == old(self).map(), final(self).map() == e.after(),
+    { unimplemented!() }
     #[verifier::external_body]
     pub fn contains_key(&self, k: &str) -> (r: bool) ensures r == self.map().contains_key(k@) { unimplemented!() }
     #[verifier::external_body]
@@ -28,6 +86,10 @@ impl<V> HashMap<String, V> {
     pub fn len(&self) -> (r: usize) { unimplemented!() }
 }
 impl HashSet<String> {
+    #[verifier::external_body]
+    pub fn insert(&mut self, k: String) -> (r: bool)
+        ensures final(self).set() == old(self).set().insert(k@), r == !old(self).set().contains(k@),
+    { unimplemented!() }
     #[verifier::external_body]
     pub fn is_empty(&self) -> (r: bool) ensures r ==> self.set() == Set::<Seq<char>>::empty() { unimplemented!() }
     #[verifier::external_body]
@@ -80,11 +142,28 @@ impl<T> RwLock<T> {
 // ---- opaque data ----------------------------------------------------------------
 #[verifier::external_body] pub struct RsyncCommand { _opaque: () }
 #[verifier::external_body] pub struct RsyncModuleMetrics { _opaque: () }
-// uri::Rsync: only its canonical authority and module name matter here.
+// ASCII lower-casing; the canonical form of a (case-insensitive) authority.
+pub uninterp spec fn lower(s: Seq<char>) -> Seq<char>;
+#[verifier::external_body]
+pub proof fn axiom_lower()
+    ensures forall|s: Seq<char>| lower(#[trigger] lower(s)) == lower(s),
+{ unimplemented!() }
+// uri::Rsync: its authority as written, the canonical (lower-cased) authority, the module name.
+// On disk a module lives at <base>/<canonical authority>/<module name>.
 #[verifier::external_body] pub struct UriRsync { _opaque: () }
 impl UriRsync {
     pub uninterp spec fn authority_spec(&self) -> Seq<char>;
     pub uninterp spec fn module_spec(&self) -> Seq<char>;
+    #[verifier::external_body]
+    pub fn authority(&self) -> (r: &str) ensures r@ == self.authority_spec() { unimplemented!() }
+    // UriExt::canonical_authority: borrowed if the authority is lower-case already
+    #[verifier::external_body]
+    pub fn canonical_authority(&self) -> (r: CowStr<'_>)
+        ensures r.view() == lower(self.authority_spec()),
+                r is Borrowed ==> lower(self.authority_spec()) == self.authority_spec(),
+    { unimplemented!() }
+    #[verifier::external_body]
+    pub fn path(&self) -> (r: &str) { unimplemented!() }
     #[verifier::external_body]
     pub fn module_name(&self) -> (r: &str) ensures r@ == self.module_spec() { unimplemented!() }
     #[verifier::external_body]
@@ -103,9 +182,11 @@ impl Clone for OwnedModule {
 impl OwnedModule {
     pub uninterp spec fn authority_spec(&self) -> Seq<char>;
     pub uninterp spec fn module_spec(&self) -> Seq<char>;
+    // A module holds the canonical form (Module::from_uri = uri.canonical_module()):
+    // authority_spec() of a module is the on-disk directory name.
     #[verifier::external_body]
     pub fn to_uri(&self) -> (r: UriRsync)
-        ensures r.authority_spec() == self.authority_spec(), r.module_spec() == self.module_spec(),
+        ensures lower(r.authority_spec()) == self.authority_spec(), r.module_spec() == self.module_spec(),
     { unimplemented!() }
 }
 
@@ -293,3 +374,10 @@ pub assume_specification<T, E, U: core::marker::Destruct, F: FnOnce(T) -> U + co
     ensures match x { Ok(v) => f.ensures((v,), r), Err(_) => r == d };
 pub assume_specification [<std::cmp::Ordering as PartialEq>::eq] (a: &std::cmp::Ordering, b: &std::cmp::Ordering) -> (r: bool)
     ensures r == (*a == *b);
+// ASCII lower-casing of strings = `lower` (the canonical form of an authority). `to_lowercase`
+// (Unicode) is not claimed to be the same function: nothing is said about its result.
+pub assume_specification [str::to_ascii_lowercase] (s: &str) -> (r: String)
+    ensures r@ == lower(s@);
+pub assume_specification [str::to_lowercase] (s: &str) -> (r: String);
+pub assume_specification [str::eq_ignore_ascii_case] (a: &str, b: &str) -> (r: bool)
+    ensures r == (lower(a@) == lower(b@));
